@@ -2668,6 +2668,69 @@ pub fn subscription_string_ids() -> Value {
 }
 
 // ------------------------------------------------------------------------------------------
+/// C08 over WebSocket: the reply to a SUBSCRIBE call -- accepting (long subscription ids from the id provider) or rejecting (error
+/// object with large data) -- is at most max_response_body_size bytes, or the fixed "too big" error carrying the call's id.
+pub fn subscribe_reply_size_limit() -> Value {
+	use jsonrpsee_client_transport::ws::WsTransportClientBuilder;
+	use jsonrpsee_core::client::{ReceivedMessage, TransportReceiverT, TransportSenderT};
+	use jsonrpsee_types::{ErrorObjectOwned, SubscriptionId};
+	#[derive(Debug)]
+	struct Long(usize);
+	impl jsonrpsee_core::traits::IdProvider for Long { fn next_id(&self) -> SubscriptionId<'static> { SubscriptionId::Str("s".repeat(self.0).into()) } }
+	rt().block_on(async move {
+		let fail = |input: String, obs: String| json!({"probe":"subscribe_reply_size_limit","disagrees":true,"input":input,"observed":obs,
+			"expected":"a reply of at most max_response_body_size bytes, or the -32008 'Response is too big' error carrying the call's id"});
+		let mut tried = 0u64;
+		for limit in [120u32, 200, 400] {
+			for id_len in [8usize, limit as usize - 60, limit as usize - 30, limit as usize, limit as usize + 300] {
+				let cfg = jsonrpsee_server::ServerConfig::builder().max_response_body_size(limit).set_id_provider(Long(id_len)).build();
+				let server = match jsonrpsee_server::Server::builder().set_config(cfg).build("127.0.0.1:0").await { Ok(s) => s, Err(e) => return json!({"probe":"subscribe_reply_size_limit","error":e.to_string()}) };
+				let addr = server.local_addr().unwrap();
+				let mut module = RpcModule::new(());
+				module
+					.register_subscription("sub", "notif", "unsub", |_, pending, _, _| async move {
+						// accept() panics (as documented) when the id does not fit; the reply has gone out by then
+						if let Ok(sink) = pending.accept().await { sink.closed().await; }
+					})
+					.unwrap();
+				module
+					.register_subscription("sub_reject", "notif2", "unsub2", |params, pending, _, _| async move {
+						let n: usize = params.one().unwrap_or(0);
+						pending.reject(ErrorObjectOwned::owned(-32000, "rejected", Some("a".repeat(n)))).await;
+					})
+					.unwrap();
+				let handle = server.start(module);
+				let url = url::Url::parse(&format!("ws://{}", addr)).unwrap();
+				let (mut tx, mut rx) = match WsTransportClientBuilder::default().build(url).await { Ok(x) => x, Err(e) => return json!({"probe":"subscribe_reply_size_limit","error":e.to_string()}) };
+				let reqs = [
+					(format!("limit {limit}: subscribe call accepted with a subscription id of {id_len} characters (id provider)"), json!({"jsonrpc":"2.0","id":1,"method":"sub"})),
+					(format!("limit {limit}: subscribe call rejected with an error object whose data has {id_len} characters"), json!({"jsonrpc":"2.0","id":1,"method":"sub_reject","params":[id_len]})),
+				];
+				for (desc, req) in reqs {
+					tried += 1;
+					let _ = tx.send(req.to_string()).await;
+					let text = match tokio::time::timeout(std::time::Duration::from_millis(1500), rx.receive()).await {
+						Ok(Ok(ReceivedMessage::Text(t))) => t,
+						Ok(Ok(ReceivedMessage::Bytes(b))) => String::from_utf8_lossy(&b).to_string(),
+						other => return fail(desc, format!("no reply: {:?}", other.map(|r| r.map(|_| ()).map_err(|e| e.to_string())))),
+					};
+					let v: Value = serde_json::from_str(&text).unwrap_or(Value::Null);
+					let too_big = v["error"]["code"] == json!(-32008) && v["id"] == json!(1);
+					if text.len() > limit as usize && !too_big {
+						return fail(desc, format!("a reply of {} bytes: {}…", text.len(), &text[..text.len().min(90)]));
+					}
+					if v["id"] != json!(1) {
+						return fail(desc, format!("the reply does not carry the call's id: {}", &text[..text.len().min(120)]));
+					}
+				}
+				let _ = handle.stop();
+			}
+		}
+		json!({"probe":"subscribe_reply_size_limit","disagrees":false,"inputs_tried":tried,"bound":"limits {120, 200, 400} x 5 sizes around the limit x {accepting reply with a long subscription id, rejecting reply with large error data}"})
+	})
+}
+
+// ------------------------------------------------------------------------------------------
 /// C02 over WebSocket, batches whose entries call subscription / unsubscription methods: the reply is ONE array with one
 /// response per call entry, and no response to a batch entry travels outside that array. Real WS server, raw frames.
 /// Reports EVERY failing history (as a list), so that a recorded finding for one history does not hide another.
